@@ -163,6 +163,11 @@ type RunOpts struct {
 	Restart map[string][]byte
 	// MaxAcked carries over what a pruning upstream was told to discard before the crash.
 	MaxAcked map[string]int
+	// Ready, if non-nil, is asked before the runner ends an idle, still running pipeline with
+	// its final graceful stop: false means "the scenario has not played out yet, keep waiting"
+	// (a loaded machine can leave the world silent for longer than the idle window). After
+	// Quiet of silence the final stop is issued regardless.
+	Ready func(w *World, st pipeline.Status) bool
 }
 
 // RunCaseOpts is the general form of RunCase.
@@ -243,6 +248,11 @@ func RunCaseOpts(c *Case, pick func(n int) int, o RunOpts) *Result {
 			if client[0].Kind != "wait" && r.OutstandingCalls() > 0 {
 				break // one control call at a time; retried after the next step
 			}
+			if client[0].Kind == "start" && c.HoldStartInRecovery {
+				if st, _ := w.Status(); st == pipeline.StatusRecovering {
+					break
+				}
+			}
 			r.Issue(client[0])
 			client = client[1:]
 		}
@@ -298,6 +308,9 @@ func RunCaseOpts(c *Case, pick func(n int) int, o RunOpts) *Result {
 			break
 		}
 		if out == 0 && (st == pipeline.StatusRunning || st == pipeline.StatusRecovering) && finalStops < 6 {
+			if o.Ready != nil && time.Since(silentSince) <= Quiet && !o.Ready(w, st) {
+				continue
+			}
 			// End of script: drain the pipeline with a graceful stop.
 			finalStops++
 			if c.HasHold() {
